@@ -465,6 +465,55 @@ func (r *Runner) listersInSync(c cache.Cache) bool {
 	return true
 }
 
+// draInSync: the DRA manager of the cache has seen every ResourceClaim (by resourceVersion), ResourceSlice and
+// DeviceClass of the store; for a cache that has not opened a session yet also: the allocated-device set is exactly
+// the set of devices allocated in the store.
+func (r *Runner) draInSync(c cache.Cache, fresh bool) bool {
+	pl := c.InternalK8sPlugins()
+	if pl == nil || pl.FrameworkHandle == nil {
+		return true
+	}
+	mgr := pl.FrameworkHandle.SharedDRAManager()
+	if mgr == nil {
+		return true
+	}
+	o := r.St.ReadAll()
+	claims, err := mgr.ResourceClaims().List()
+	if err != nil || len(claims) != len(o.ResourceClaims) {
+		return false
+	}
+	want := map[string]bool{}
+	for _, sc := range o.ResourceClaims {
+		got, err := mgr.ResourceClaims().Get(sc.Namespace, sc.Name)
+		if err != nil || got.ResourceVersion != sc.ResourceVersion {
+			return false
+		}
+		for _, d := range DeviceIDs(sc.Status.Allocation) {
+			want[d] = true
+		}
+	}
+	if sl, err := mgr.ResourceSlices().ListWithDeviceTaintRules(); err != nil || len(sl) != len(o.ResourceSlices) {
+		return false
+	}
+	if dc, err := mgr.DeviceClasses().List(); err != nil || len(dc) != len(o.DeviceClasses) {
+		return false
+	}
+	if fresh {
+		st, err := mgr.ResourceClaims().GatherAllocatedState()
+		if err != nil || st == nil || st.AllocatedDevices.Len() != len(want) {
+			return false
+		}
+		for id := range st.AllocatedDevices {
+			if !want[id.String()] {
+				return false
+			}
+		}
+	} else {
+		time.Sleep(2 * time.Millisecond) // the handler of the last delivered event may still be running
+	}
+	return true
+}
+
 func NewRunner(st *store.Store, c *spec.Case, rng *rand.Rand, hooks Hooks) (*Runner, error) {
 	cfg, params, err := BuildConf(&c.Config, hooks.Extra)
 	if err != nil {
@@ -532,9 +581,11 @@ func (r *Runner) Cycle() (res *CycleResult) {
 	}
 	var real cache.Cache
 	var stop chan struct{}
+	fresh := false
 	if r.Persistent && r.pcache != nil {
 		real, stop = r.pcache, r.pstop
 	} else {
+		fresh = true
 		real = cache.New(params)
 		stop = make(chan struct{})
 		real.Run(stop)
@@ -551,6 +602,18 @@ func (r *Runner) Cycle() (res *CycleResult) {
 				break
 			}
 			time.Sleep(2 * time.Millisecond)
+		}
+	}
+	if r.St.DRAEnabled() {
+		// no informer lag is modelled for DRA objects either: the claim informer feeds the DRA manager's assume cache
+		// and, through it, the allocated-device set by event handlers that WaitForCacheSync does not wait for
+		deadline := time.Now().Add(3 * time.Second)
+		for !r.draInSync(real, fresh) {
+			if time.Now().After(deadline) {
+				res.NotSynced = true
+				break
+			}
+			time.Sleep(time.Millisecond)
 		}
 	}
 	rc := &RecCache{Cache: real, Cycle: r.cycle, rng: r.Rng, faults: r.Faults, OnEvent: r.Hooks.OnEvent}
